@@ -8,6 +8,20 @@ open Client.Spec
 theorem step_fields (g : Ghost) (o : Obs) :
     (g.step o).pView = o.view ∧ (g.step o).pCol = o.col ∧ (g.step o).pInf = o.inf := ⟨rfl, rfl, rfl⟩
 
+theorem releaseEff_chosen {s : State} {i : Nat} {c0 : Core} {res : State × Outcome} (he : ReleaseEff s i c0 res)
+    (pkt : Packet) (j : Nat) (ho : res.2 = .ok (some pkt)) (hc : chosenId pkt = some j) :
+    ∃ c, s.collision = some c ∧ c.pkid = j := by
+  cases he with
+  | plain _ _ _ => simp at ho
+  | released s' c hcol hci hc' =>
+    simp only [Outcome.ok.injEq, Option.some.injEq] at ho
+    subst ho
+    simp only [chosenId] at hc
+    split at hc
+    · simp at hc
+    · simp only [Option.some.injEq] at hc
+      exact ⟨c, hcol, hc⟩
+
 /-- every packet an incoming packet makes the client write with an id of its own choosing is the
     parked publish -/
 theorem incoming_chosen {s : State} (hs : SInv s) (p : Incoming) (pkt : Packet) (i : Nat)
@@ -16,20 +30,11 @@ theorem incoming_chosen {s : State} (hs : SInv s) (p : Incoming) (pkt : Packet) 
   by_cases hack : ∃ j r, p = .puback j r
   · obtain ⟨j, r, rfl⟩ := hack
     rw [handleIncoming_puback] at ho
-    have he := handlePuback_eff (hs.pushEv (.incoming (.puback j r))) j r
-    generalize handlePuback (s.pushEv (.incoming (.puback j r))) j r = res at he ho
+    have he := handlePuback_eff (hs.pushEv (.incoming (.puback j r))) j
+    generalize handlePuback (s.pushEv (.incoming (.puback j r))) j = res at he ho
     cases he with
-    | oob _ _ _ => simp at ho
-    | empty _ _ _ => simp at ho
-    | freed _ _ _ _ _ => simp at ho
-    | released s' x c h hv hcol hci hc' =>
-      simp only [Outcome.ok.injEq, Option.some.injEq] at ho
-      subst ho
-      simp only [chosenId] at hc
-      split at hc
-      · simp at hc
-      · simp only [Option.some.injEq] at hc
-        exact ⟨c, hcol, hc⟩
+    | unsol _ _ _ => simp at ho
+    | acked x _ hx he => exact releaseEff_chosen he pkt i ho hc
   · by_cases hrec : ∃ j r, p = .pubrec j r
     · obtain ⟨j, r, rfl⟩ := hrec
       rw [handleIncoming_pubrec] at ho
@@ -37,74 +42,33 @@ theorem incoming_chosen {s : State} (hs : SInv s) (p : Incoming) (pkt : Packet) 
       generalize handlePubrec (s.pushEv (.incoming (.pubrec j r))) j r = res at he ho
       cases he with
       | unsol _ _ _ => simp at ho
-      | failed _ _ _ _ _ => simp at ho
+      | failed x _ hx hv he => exact releaseEff_chosen he pkt i ho hc
       | moved _ _ _ _ _ _ =>
         simp only [Outcome.ok.injEq, Option.some.injEq] at ho
         subst ho; simp [chosenId] at hc
     · by_cases hcomp : ∃ j r, p = .pubcomp j r
       · obtain ⟨j, r, rfl⟩ := hcomp
         rw [handleIncoming_pubcomp] at ho
-        generalize hs0 : s.pushEv (.incoming (.pubcomp j r)) = s0 at ho
-        have hcol0 : s0.collision = s.collision := by rw [← hs0]; rfl
-        rw [← hcol0]
-        unfold handlePubcomp at ho
-        split at ho
-        · unfold handlePubcompV4 at ho
-          split at ho
-          · split at ho
-            · simp at ho
-            · simp only at ho
-              split at ho
-              · rename_i c hc'
-                split at ho
-                · rename_i hci
-                  simp only [Prod.mk.injEq, Outcome.ok.injEq, Option.some.injEq] at ho
-                  have := ho; subst this
-                  simp only [chosenId] at hc
-                  split at hc
-                  · simp at hc
-                  · simp only [Option.some.injEq] at hc
-                    exact ⟨c, hc', hc⟩
-                · simp at ho
-              · simp at ho
-          · simp at ho
-        · unfold handlePubcompV5 at ho
-          simp only at ho
-          split at ho
-          · split at ho
-            · simp at ho
-            · split at ho
-              · simp at ho
-              · simp only [Outcome.ok.injEq] at ho
-                unfold pubcompTaken at ho
-                split at ho
-                · rename_i c hc'
-                  split at ho
-                  · simp only [Option.some.injEq] at ho
-                    subst ho
-                    simp only [chosenId] at hc
-                    split at hc
-                    · simp at hc
-                    · simp only [Option.some.injEq] at hc
-                      exact ⟨c, hc', hc⟩
-                  · simp at ho
-                · simp at ho
-          · simp at ho
+        have he := handlePubcomp_eff (hs.pushEv (.incoming (.pubcomp j r))) j
+        generalize handlePubcomp (s.pushEv (.incoming (.pubcomp j r))) j = res at he ho
+        cases he with
+        | unsol _ _ _ => simp at ho
+        | done _ hx he => exact releaseEff_chosen he pkt i ho hc
       · have h := otherIncoming_eff s p (fun i r h => hack ⟨i, r, h⟩) (fun i r h => hrec ⟨i, r, h⟩)
           (fun i r h => hcomp ⟨i, r, h⟩)
-        -- remaining packets answer with PUBACK / PUBREC / PUBCOMP or nothing
+        -- remaining packets answer with PUBACK / PUBREC / PUBCOMP / DISCONNECT or nothing
         cases pkt with
         | publish q => exact absurd ho (h.2.1 q)
         | pubrel j => exact absurd ho (h.2.2 j)
         | subscribe j =>
           exfalso
           unfold handleIncoming at ho
-          cases p <;> simp only [handlePublish, outgoingPuback, outgoingPubrec, handlePubrel, handleConnack] at ho <;>
+          cases p <;> simp only [handlePublish, outgoingPuback, outgoingPubrec, outgoingDisconnect, handlePubrel, handleConnack] at ho <;>
             (repeat' split at ho) <;> simp_all
         | unsubscribe j =>
           exfalso
           unfold handleIncoming at ho
-          cases p <;> simp only [handlePublish, outgoingPuback, outgoingPubrec, handlePubrel, handleConnack] at ho <;>
+          cases p <;> simp only [handlePublish, outgoingPuback, outgoingPubrec, outgoingDisconnect, handlePubrel, handleConnack] at ho <;>
             (repeat' split at ho) <;> simp_all
         | puback _ => simp [chosenId] at hc
         | pubrec _ => simp [chosenId] at hc
@@ -112,6 +76,34 @@ theorem incoming_chosen {s : State} (hs : SInv s) (p : Incoming) (pkt : Packet) 
         | pingreq => simp [chosenId] at hc
         | disconnect _ => simp [chosenId] at hc
 
+theorem publishWithId_out (s : State) (p : Pub) (pkt : Packet) (h : (publishWithId s p).2 = .ok (some pkt)) :
+    pkt = .publish p := by
+  unfold publishWithId at h
+  split at h
+  · simp at h
+  · split at h
+    · simp at h
+    · split at h
+      · simp at h
+      · simp only [publishTail, Outcome.ok.injEq, Option.some.injEq] at h; exact h.symm
+
+/-- the id a (re)played publish goes out with -/
+theorem publish_out_range {s : State} {pd : List Request} (h0 : Inv0 ⟨s, pd⟩) (p : Pub) (ha : p.alias = none)
+    (hq : p.qos ≠ 0) (h2 : p.pkid ≤ s.maxInflight) (pkt : Packet) (i : Nat)
+    (hp : (handleOutgoing s (.publish p)).2 = .ok (some pkt)) (hc : chosenId pkt = some i) :
+    1 ≤ i ∧ i ≤ s.maxInflight := by
+  obtain ⟨hpn, hv1, hv2, hv3⟩ := h0.nextPkid
+  by_cases hid : p.pkid = 0
+  · rw [eff_publish_fresh s p ha hq hid hpn] at hp
+    have := publishWithId_out _ _ _ hp
+    subst this
+    simp only [chosenId, hq, if_false, Option.some.injEq] at hc
+    subst hc; exact ⟨hv1, hv2⟩
+  · rw [eff_publish_replay s p ha hq hid] at hp
+    have := publishWithId_out _ _ _ hp
+    subst this
+    simp only [chosenId, hq, if_false, Option.some.injEq] at hc
+    subst hc; exact ⟨by omega, h2⟩
 
 /-- C07 clause 1 on one step: an id the client chose lies in `1 ..= limit` -/
 theorem range_step {l : LState} (h0 : Inv0 l) (op : LOp) (o : Obs) (ho : (lstep l op).2 = some o)
@@ -135,17 +127,7 @@ theorem range_step {l : LState} (h0 : Inv0 l) (op : LOp) (o : Obs) (ho : (lstep 
         by_cases hq : q = 0
         · subst hq; rw [eff_publish_qos0] at hp
           simp only [Outcome.ok.injEq, Option.some.injEq] at hp; subst hp; simp [chosenId] at hc
-        · rw [eff_publish_fresh s q t hq hpn] at hp
-          unfold publishWithId at hp
-          split at hp
-          · simp at hp
-          · simp at hp
-          · split at hp
-            · simp at hp
-            · rw [eff_publishTail _ _ rfl] at hp
-              simp only [Outcome.ok.injEq, Option.some.injEq] at hp; subst hp
-              simp only [chosenId, hq, if_false, Option.some.injEq] at hc
-              subst hc; exact ⟨hv1, hv2⟩
+        · exact publish_out_range h0 ⟨q, 0, t, none⟩ rfl hq (Nat.zero_le _) pkt i hp hc
       | subscribe n =>
         simp only [UserReq.toRequest, handleOutgoing, outgoingSubscribe] at hp
         split at hp
@@ -172,20 +154,23 @@ theorem range_step {l : LState} (h0 : Inv0 l) (op : LOp) (o : Obs) (ho : (lstep 
     cases pd with
     | nil => simp [lop?] at ho
     | cons r rest =>
-      simp only [lop?, Option.some.injEq] at ho
+      by_cases hrd : pendingReady s (r :: rest) = true
+      case neg => simp [lop?, hrd] at ho
+      simp only [lop?, hrd, if_true, Option.some.injEq] at ho
       subst ho
       simp only [sstepObs, mkObs] at hp
       cases r with
       | publish p =>
-        obtain ⟨hq, hp1, hp2, ha, hslot, hinf, hne⟩ := h0.pend_publish
-        rw [eff_publish_replay s p hq (by omega), eff_publishWithId_store s p ha hslot hinf] at hp
-        simp only [Outcome.ok.injEq, Option.some.injEq] at hp; subst hp
-        simp only [chosenId, hq, if_false, Option.some.injEq] at hc
-        subst hc; exact ⟨hp1, hp2⟩
+        have hwf := h0.pendWF (.publish p) (by simp)
+        simp only [PendOK] at hwf
+        exact publish_out_range h0 p hwf.2.2 hwf.1 hwf.2.1 pkt i hp hc
       | pubrel j =>
-        obtain ⟨hi1, hi2, hlt, hinf⟩ := h0.pend_pubrel
-        rw [eff_pubrel_replay s j (by omega) hlt hinf] at hp
-        simp only [Outcome.ok.injEq, Option.some.injEq] at hp; subst hp; simp [chosenId] at hc
+        have hwf := h0.pendWF (.pubrel j) (by simp)
+        simp only [PendOK] at hwf
+        simp only [handleOutgoing, outgoingPubrel, pubrelWithId] at hp
+        rw [if_neg (by omega)] at hp
+        (repeat' split at hp) <;> simp at hp
+        subst hp; simp [chosenId] at hc
       | subscribe n => exact absurd (h0.pendWF (.subscribe n) (by simp)) (by simp [PendOK])
       | unsubscribe => exact absurd (h0.pendWF .unsubscribe (by simp)) (by simp [PendOK])
       | pingreq => exact absurd (h0.pendWF .pingreq (by simp)) (by simp [PendOK])
@@ -231,7 +216,7 @@ theorem range_step {l : LState} (h0 : Inv0 l) (op : LOp) (o : Obs) (ho : (lstep 
     subst ho
     simp [sstepObs, mkObs] at hp
 
-theorem C07_range_ok {l : LState} {g : Ghost} (h : B0 l g) (op : LOp) (o : Obs) (ho : (lstep l op).2 = some o) :
+theorem C07_range_ok {l : LState} {g : Ghost} (h : B1 l g) (op : LOp) (o : Obs) (ho : (lstep l op).2 = some o) :
     C07.range g o (g.step o) = true := by
   unfold C07.range
   simp only [Bool.or_eq_true]
@@ -257,9 +242,9 @@ theorem C07_window_ok {l' : LState} {g' : Ghost} (h : B1 l' g') : C07.window g' 
   simp only [Bool.or_eq_true, decide_eq_true_eq]
   right
   unfold unackedIds
-  rw [List.length_append, List.length_map, h.g1.unacked.len, h.b0.g0.relsLen, h.b0.g0.lim]
-  have h1 := h.b0.inv0.sinv.counter
-  have h2 := h.b0.inv0.window
+  rw [List.length_append, List.length_map, h.g1.unacked.len, h.g0.relsLen, h.g0.lim]
+  have h1 := h.inv0.sinv.counter
+  have h2 := h.inv0.window
   omega
 
 theorem mem_keys_iff_occ {U : List (Nat × Nat)} {s : State} (h : UnackedOK U s) (i : Nat) :
@@ -281,23 +266,25 @@ theorem mem_keys_iff_occ {U : List (Nat × Nat)} {s : State} (h : UnackedOK U s)
     exact Classical.not_not.mp (fun hn => by simpa using this.mpr hn)
 
 /-- C07 clause 2 after a step: ids of simultaneously unacknowledged publishes are distinct -/
-theorem C07_dupId_ok {l' : LState} {g' : Ghost} (h : B1 l' g') (h2 : Inv2 l') : C07.dupId g' = true := by
+theorem C07_dupId_ok {l' : LState} {g' : Ghost} (h : B1 l' g') : C07.dupId g' = true := by
+  have h2 := h.i2
   unfold C07.dupId
   simp only [Bool.or_eq_true, decide_eq_true_eq]
   right
   unfold unackedIds
   rw [List.nodup_append]
-  refine ⟨h.g1.unacked.nd, h.b0.g0.relsNd, ?_⟩
+  refine ⟨h.g1.unacked.nd, h.g0.relsNd, ?_⟩
   intro a ha b hb hab
   subst hab
   have h1 := (mem_keys_iff_occ h.g1.unacked a).mp ha
-  have h3 := (h.b0.g0.rels a).mp hb
+  have h3 := (h.g0.rels a).mp hb
   rw [h2.disj a h1] at h3
   simp at h3
 
 /-- C07 clause 4b after a step: window not full, nothing parked, nothing pending ⇒ gate open -/
-theorem C07_resumes_ok {l' : LState} {g' : Ghost} (h : B1 l' g') (h3 : Inv3 l') (o : Obs)
+theorem C07_resumes_ok {l' : LState} {g' : Ghost} (h : B1 l' g') (o : Obs)
     (hv : o.inf = g'.pInf) : C07.resumes g' o = true := by
+  have h3 := h.i3
   unfold C07.resumes
   simp only [Bool.or_eq_true, decide_eq_true_eq, Bool.not_eq_true']
   by_cases hc : (o.col.isNone && g'.pending.isEmpty && decide ((unackedIds g').length < g'.limit)) = true
@@ -305,19 +292,20 @@ theorem C07_resumes_ok {l' : LState} {g' : Ghost} (h : B1 l' g') (h3 : Inv3 l') 
     simp only [Bool.and_eq_true, decide_eq_true_eq] at hc
     have := hc.2
     unfold unackedIds at this
-    rw [List.length_append, List.length_map, h.g1.unacked.len, h.b0.g0.relsLen] at this
-    rw [hv, h.b0.g0.inf, h3]
+    rw [List.length_append, List.length_map, h.g1.unacked.len, h.g0.relsLen] at this
+    rw [hv, h.g0.inf, h3]
     exact this
   · left; right
     simpa using hc
 
 /-- C07 clause 5 after a step: the id a parked publish waits for is held by an unacknowledged publish -/
-theorem C07_resolvable_ok {l' : LState} {g' : Ghost} (h : B1 l' g') (h4 : Inv4 l') (o : Obs)
+theorem C07_resolvable_ok {l' : LState} {g' : Ghost} (h : B1 l' g') (o : Obs)
     (hv : o.col = g'.pCol) : C07.resolvable g' o = true := by
+  have h4 := h.i4
   unfold C07.resolvable
   simp only [Bool.or_eq_true]
   right
-  rw [hv, h.b0.g0.col]
+  rw [hv, h.g0.col]
   cases hc : l'.st.collision with
   | none => rfl
   | some c =>
@@ -326,17 +314,17 @@ theorem C07_resolvable_ok {l' : LState} {g' : Ghost} (h : B1 l' g') (h4 : Inv4 l
     rw [List.mem_append]
     rcases h4 c hc with h' | h'
     · exact Or.inl ((mem_keys_iff_occ h.g1.unacked c.pkid).mpr h')
-    · exact Or.inr ((h.b0.g0.rels c.pkid).mpr h')
+    · exact Or.inr ((h.g0.rels c.pkid).mpr h')
 
 /-! ### C02 -/
 
-theorem held_mem_heldTags {l' : LState} {g' : Ghost} (hg : GInv0 l' g') (o : Obs) (hv : o.view = g'.pView)
+theorem held_mem_heldTags {l' : LState} {g' : Ghost} (hs : SInv l'.st) (hg : GInv0 l' g') (o : Obs) (hv : o.view = g'.pView)
     (hc : o.col = g'.pCol) (t : Nat) (h : Held l' t) : t ∈ heldTags g' o := by
   unfold heldTags
   rw [hv, hc, hg.view, hg.col, hg.pend]
   rcases h with ⟨i, p, hp, ht⟩ | ⟨c, hc', ht⟩ | ⟨p, hp, ht⟩
   · apply List.mem_append_left; apply List.mem_append_left
-    exact (mem_pubTags _ _).mpr ⟨p, (mem_cleanRequests _ _).mpr (Or.inl ⟨p, rfl, List.mem_iff_getElem?.mpr ⟨i, hp⟩⟩), ht⟩
+    exact (mem_pubTags _ _).mpr ⟨p, (mem_cleanRequests hs _).mpr (Or.inl ⟨p, rfl, List.mem_iff_getElem?.mpr ⟨i, hp⟩⟩), ht⟩
   · apply List.mem_append_left; apply List.mem_append_right
     rw [hc']; simp [colTag, ht]
   · apply List.mem_append_right
@@ -351,20 +339,20 @@ theorem C02_noLoss_ok {l' : LState} {g' : Ghost} (h : B1 l' g') (o : Obs) (hv : 
   intro t ht
   rcases h.g1.kept t ht with h' | h'
   · exact Or.inl h'
-  · exact Or.inr (held_mem_heldTags h.b0.g0 o hv hc t h')
+  · exact Or.inr (held_mem_heldTags h.inv0.sinv h.g0 o hv hc t h')
 
 /-- C02: every pending release is held -/
-theorem C02_relHeld_ok {l' : LState} {g' : Ghost} (h : B0 l' g') (o : Obs) (hv : o.view = g'.pView) :
+theorem C02_relHeld_ok {l' : LState} {g' : Ghost} (h : B1 l' g') (o : Obs) (hv : o.view = g'.pView) :
     C02.relHeld g' o = true := by
   unfold C02.relHeld
   simp only [Bool.or_eq_true, List.all_eq_true, List.contains_iff_mem]
   right
   intro i hi
   rw [hv, h.g0.view]
-  exact (mem_cleanRequests _ _).mpr (Or.inr ⟨i, rfl, (h.g0.rels i).mp hi⟩)
+  exact (mem_cleanRequests h.inv0.sinv _).mpr (Or.inr (Or.inl ⟨i, rfl, (h.g0.rels i).mp hi⟩))
 
 /-- C02 clause 2: `clean()` returns exactly what was held and leaves nothing behind -/
-theorem C02_cleanExact_ok {l : LState} {g : Ghost} (h : B0 l g) (op : LOp) (o : Obs) (ho : (lstep l op).2 = some o) :
+theorem C02_cleanExact_ok {l : LState} {g : Ghost} (h : B1 l g) (op : LOp) (o : Obs) (ho : (lstep l op).2 = some o) :
     C02.cleanExact g o = true := by
   obtain ⟨s, pd⟩ := l
   unfold lstep at ho
@@ -381,7 +369,8 @@ theorem C02_cleanExact_ok {l : LState} {g : Ghost} (h : B0 l g) (op : LOp) (o : 
       have hp := h.inv0.sinv.cleanPanics
       simp only at hp
       simp only [sstepObs, hp, Bool.false_eq_true, if_false, mkObs, sstepSt]
-      have := cleanState_clean s
+      have := cleanState_clean h.inv0.sinv
+      simp only at this
       simp only [h.g0.view, this]
       simp [cleanState]
     | out r => rfl
